@@ -1234,6 +1234,11 @@ func (vc *VC) guardCheck(st *State, f *Frame, addr ssa.Value, pos token.Pos) {
 	if !guarded {
 		return
 	}
+	if mu == "<atomic>" {
+		// a plain load or store of a field that must only be touched through sync/atomic
+		vc.oblige(st, fmt.Sprintf("atomic-only@%s.%s@%s", types.Unalias(pt).(*types.Named).Obj().Name(), fname, vc.site()), tFalse, []string{"C10", "C14"}, vc.posOf(pos))
+		return
+	}
 	for i := 0; i < stt.NumFields(); i++ {
 		if stt.Field(i).Name() == mu {
 			p := vc.asPtr(vc.value(st, f, fa.X), pt).withStep(PathStep{Field: i})
